@@ -20,6 +20,7 @@ import (
 )
 
 func TestMain(m *testing.M) {
+	stat.ApplyEnv()
 	code := m.Run()
 	if asm != nil {
 		asm.Close()
